@@ -9,7 +9,7 @@ from props import evloop_common as ec
 
 META = {
     "technique": "TLA+ abstract concurrent object with silent Lin/Commit steps (EventLoop.tla) checked by TLC on all interleavings; real EventLoopScheduler run under deterministic thread schedules (preemption-bounded + seeded random) with a controlled clock, every execution validated as a trace by TLC (EventLoopTrace.tla); PlusCal lock-granularity model of run() checked against the same invariants",
-    "level": "TLC checks Serial/OneThread/Fifo/DueOrder/NotEarly/CancelledNeverRuns/NoRunAfterDisposeReturned/ThreadForPending on every interleaving of the bounded abstract generator (2 clients, loop-thread lifecycle, clock) and NoLostWakeup as a liveness property; 24-36 client scenarios (schedule / schedule_relative / schedule_absolute / cancel / dispose / sleep, actions that call the scheduler, exit_if_empty both ways) are executed on the real class for every sampled schedule up to the preemption bound and each recorded call/ret/start/end/thread-start/thread-exit trace must be explainable by some placement of the silent linearization, commit and exit steps that satisfies every invariant, ending in a quiescent state without a due pending item (no lost wake-up) and, with exit_if_empty, without a thread.",
+    "level": "TLC checks Serial/OneThread/Fifo/DueOrder/CrossOrderTI/CrossOrderIT/NotEarly/CancelledNeverRuns/NoRunAfterDisposeReturned/ThreadForPending on every interleaving of the bounded abstract generator (2 clients, loop-thread lifecycle, clock) and NoLostWakeup as a liveness property; 40-65 client scenarios (schedule / schedule_relative / schedule_absolute / cancel / dispose / sleep, actions that call the scheduler, exit_if_empty both ways) are executed on the real class for every sampled schedule up to the preemption bound and each recorded call/ret/start/end/thread-start/thread-exit trace must be explainable by some placement of the silent linearization, commit and exit steps that satisfies every invariant, ending in a quiescent state without a due pending item (no lost wake-up) and, with exit_if_empty, without a thread.",
     "note": "TLC 2026.09 / DetSched switch points = GIL-realisable points of eventloopscheduler.py + scheduleditem.py and every shim operation; threading.Condition/Lock, Thread (thread_factory) and default_now replaced by cooperative shims on a controlled clock; integer-second times",
     "ref": "DESIGN.md 6 C31, 3.3, D.6",
 }
@@ -20,7 +20,8 @@ RULE = ("client scenarios of <= 3 threads x <= 4 operations over <= 4 items on o
 ASSUME = [
     "controlled schedules preempt only where the pinned GIL interpreter can (after a call instruction, at function entry, at backward jumps, at shim operations): a subset of the language-level interleavings",
     "the controlled clock moves only when no thread is runnable; hence it does not move between a schedule call and its critical section (an absolute due time that becomes due DURING the call is not explored)",
-    "an item is classed immediate/timed by the clock at the CALL; order between an immediate and a timed item and between timed items with equal due time is not asserted (statement silent)",
+    "an item is classed immediate/timed by the clock at its submission; across the classes a timed item may not overtake an immediate item submitted before its due time and an immediate item may not overtake a timed item due earlier; equal times (across classes, among timed items) are not asserted (statement silent); an immediate item with a due time in the past is compared by its submission clock",
+    "several scheduler instances in one execution are validated as one trace per instance (events attributed by item owner / by the thread_factory that created the thread)",
     "a schedule call overlapping a dispose() may be refused or accepted, and an accepted one may or may not run (statement speaks only of calls after dispose() returned)",
     "a cancelled timed item may keep an exit_if_empty thread alive until its due time",
 ]
